@@ -22,6 +22,7 @@ model-vs-implementation pass (same parts, same answer), see notes/C16.md.
 -/
 import Rs1090.Model.Source
 import Rs1090.Spec.Source
+import Rs1090.Gen.HiddenState
 namespace Rs1090.Props.C16
 open Rs1090 Rs1090.Source
 
@@ -407,5 +408,18 @@ example : parseU16 "4003" = some 4003 ∧ parseU16 "+4003" = some 4003 ∧ parse
     (and for the table `{ address = "h", port = 1 }`) -/
 example : serial (.tcpShort "h:1") = 17241056920238101215 ∧
     serial (.tcpLong "h" 1) = 17241056920238101215 := by decide +kernel
+
+/-! ### hidden state (the code side of "is a function of its input") -/
+
+/-- **No hidden state besides the reviewed one** in the files this property is anchored in.  `Position::from_str` is a function of the string; the only site is the lazily built READ-ONLY airport table (parsed once from the embedded airports.json, pinned as a data file).  'In every run of the process' (the serial clause) is about `DefaultHasher::new()`'s fixed keys, modelled in `Model.Source.sipHash13`.
+    The translator lists on every run every construct through which a Rust function can carry state from one
+    call to the next without it showing in its signature (`static`, `thread_local!`, `lazy_static!`,
+    `OnceCell`/`OnceLock`/`Lazy`, `Cell`/`RefCell`/`UnsafeCell`, `Mutex`/`RwLock`, atomics, `unsafe`; whole
+    files, gen/extractors/hidden_state.py); a memo, cache or counter added there breaks this obligation by
+    name, whatever inputs the harness happens to generate. -/
+theorem hidden_state_reviewed :
+    Gen.HiddenState.sitesIn ["decode/cpr.rs", "data/airports.rs"] =
+      [("data/airports.rs", "pub static AIRPORTS: Lazy<Vec<Airport>> ="),
+       ("data/airports.rs", "Lazy::new(|| serde_json::from_str(AIRPORTS_JSON).unwrap());")] := by decide
 
 end Rs1090.Props.C16
